@@ -79,6 +79,10 @@ def run(cx):
 
     drop_guard(cx, "C12.b")
     rest_of_c12(cx)
+    # "retransmitted until acknowledged" needs the resend deadlines to come due: the connection's clock
+    # must reach the state flush() acts on
+    from props.shared import half_connection_clock
+    half_connection_clock(cx, "C12.g")
 
 
 def drop_guard(cx, iid):
@@ -223,6 +227,6 @@ SELFTEST = [
      "edits": [{"file": "src/half_connection/mod.rs", "old": "if entry.resend {", "new": "if entry.resend || true {"}],
      "expect": ["C12.c"]},
     {"name": "Unreliable marked for resend",
-     "edits": [{"file": "src/half_connection/packet_sender.rs", "old": "SendMode::Unreliable => {\n                    resend = false;", "new": "SendMode::Unreliable => {\n                    resend = true;"}],
+     "edits": [{"file": "src/half_connection/packet_sender.rs", "old": "                SendMode::Unreliable => false,", "new": "                SendMode::Unreliable => true,"}],
      "expect": ["C12.a"]},
 ]
